@@ -195,11 +195,25 @@ def arith_value(i, a, b):
     return {"i": i, "v": a * a + 3 * b - i, "s": str(a % 10) * (b % 4), "l": [i, [a, b]]}
 
 
+CONFIG_MARKER = "options-of-this-run"
+
+
+def config_marker():
+    """ a non-default option of the run that is not handed to the function explicitly: calls made one after another
+        in the calling process see it, and so must the calls made in workers """
+    from antismash.config import get_config
+    try:
+        return get_config().verif_marker
+    except Exception as err:  # pylint: disable=broad-except
+        return "absent:" + type(err).__name__
+
+
 def arith(i, a, b, delay):
     t_start = time.monotonic()
     if delay:
         time.sleep(delay)
     value = arith_value(i, a, b)
+    value["cfg"] = config_marker()
     return (value, os.getpid(), t_start, time.monotonic())
 
 
@@ -749,6 +763,7 @@ def main(argv):
     from antismash.config import build_config, update_config
     build_config([], isolated=True, modules=[])
     update_config(dict(GENEFINDING_OPTS))
+    update_config({"verif_marker": CONFIG_MARKER})
     with open(out_path, "a", encoding="utf-8") as out:
         def emit(obj):
             out.write(json.dumps(obj) + "\n")
